@@ -1,5 +1,5 @@
 #!/usr/bin/env python3
-"""Print the markdown table of seeded changes (DESIGN.md section 11) from seeded/*/meta.json."""
+"""Print the markdown table of seeded changes (DESIGN.md section 7) from seeded/*/meta.json."""
 import glob, json, os
 hist = json.load(open("/verif/seeded/HISTORY.json"))["first_run"]
 print("| seed | breaks | what the change is (from the author's notes) | final result of the property's quick check | first run |")
